@@ -42,12 +42,15 @@ impl DisjointSetUnion {
     }
 
     fn root(&mut self, x: usize) -> usize {
-        let mut parent = x;
-        while parent != self.parents[x] {
-            self.parents[x] = self.parents[self.parents[x]]; //path compression
-            parent = self.parents[x];
+        // walk up from x, halving the path as we go.   The moving node
+        // (not x itself) must be the one tested and updated, otherwise
+        // the loop stops after one step and returns the grandparent
+        let mut node = x;
+        while node != self.parents[node] {
+            self.parents[node] = self.parents[self.parents[node]]; //path compression
+            node = self.parents[node];
         }
-        parent
+        node
     }
 }
 
